@@ -152,6 +152,28 @@ class TlcResult:
     def tagged(self, tag):
         return [p for p in self.prints if p and p[0] == tag]
 
+    def definition_coverage(self, module):
+        """from `-coverage 1` output: for every top-level definition of spec/<module>.tla, the largest evaluation
+        count TLC reports for an occurrence of a primed variable inside it (an assignment or a constraint on the
+        next state is evaluated only after the guards before it held) - 0 means the action was never taken in
+        this TLC run (vacuity); definitions without primed variables are not listed"""
+        path = os.path.join(SPEC, module + ".tla")
+        lines = open(path).read().splitlines()
+        starts = [(k + 1, m.group(1)) for k, l in enumerate(lines) for m in [re.match(r"^(\w+)(\([^)]*\))?\s*==", l)] if m]
+        hits = {}
+        for m in re.finditer(r"^\s*\|*line (\d+), col (\d+) to line \d+, col \d+ of module %s: (\d+)" % module, self.out, re.M):
+            ln, col, c = int(m.group(1)), int(m.group(2)), int(m.group(3))
+            if 1 <= ln <= len(lines) and re.match(r"\w+'", lines[ln - 1][col - 1:]):
+                hits[ln] = max(hits.get(ln, 0), c)
+        res = {}
+        for idx, (ln, name) in enumerate(starts):
+            end = starts[idx + 1][0] - 1 if idx + 1 < len(starts) else len(lines)
+            inside = [hits[k] for k in range(ln, end + 1) if k in hits]
+            has_primed = any(re.search(r"\w'", lines[k - 1]) and not lines[k - 1].lstrip().startswith("\\*") for k in range(ln, end + 1))
+            if has_primed:
+                res[name] = max(inside + [0])
+        return res
+
 
 def parse_tla(s):
     """parse the subset of TLA+ values our specifications print: tuples, sets, strings, ints, booleans"""
@@ -205,6 +227,27 @@ def tlc_parallel(jobs, max_procs=8):
     with ThreadPoolExecutor(max_workers=max_procs) as ex:
         futs = [ex.submit(lambda kw=kw: tlc(**kw)) for kw in jobs]
         return [f.result() for f in futs]
+
+
+def e1(ctx, module, design, actions, cfg=None, **kw):
+    """exhaustive TLC run of an E1 model with `-coverage 1`; records how often each named action of the design module
+    was taken (evidence: e1_action_counts) and treats an action that was never taken as a failure of the machinery
+    (vacuity), not as a pass"""
+    extra = list(kw.pop("extra", [])) + ["-coverage", "1"]
+    r = tlc(module, cfg=cfg, extra=extra, deque=False, **kw)
+    ctx.add_tlc(r, e1=True)
+    # named disjuncts of the model's Next are counted by TLC itself (<Name ...>: distinct:generated); actions that exist
+    # only as definitions of the design module are looked up in the expression-level coverage
+    cov = r.definition_coverage(design)
+    counts = {}
+    for a in actions:
+        named = [v for k, v in r.coverage.items() if k.endswith("!" + a)]
+        counts[a] = max([v[1] for v in named]) if named else cov.get(a, 0)
+    ctx.notes.setdefault("e1_action_counts", {})["%s (%s)" % (design, cfg or module)] = counts
+    dead = [a for a, c in counts.items() if c == 0]
+    if dead:
+        raise ToolError("vacuity: actions never taken in %s: %s" % (module, dead))
+    return r
 
 
 # ---------------------------------------------------------------------------- known findings
